@@ -1,0 +1,59 @@
+//go:build verif
+// +build verif
+
+package plumbing
+
+import (
+	"sort"
+	"time"
+
+	"gopkg.in/src-d/go-git.v4/plumbing"
+)
+
+// Read-only accessors for the C08 (fork isolation) harness.
+
+// VerifC08Previous returns the branch-local memory of TreeDiff: the hash of previousTree (ok = false
+// when there is none) and previousCommit.
+func (treediff *TreeDiff) VerifC08Previous() (tree plumbing.Hash, ok bool, commit plumbing.Hash) {
+	if treediff.previousTree != nil {
+		tree, ok = treediff.previousTree.Hash, true
+	}
+	return tree, ok, treediff.previousCommit
+}
+
+// VerifC08CacheKeys returns the sorted keys of the branch-local blob cache.
+func (blobCache *BlobCache) VerifC08CacheKeys() []plumbing.Hash {
+	keys := make([]plumbing.Hash, 0, len(blobCache.cache))
+	for k := range blobCache.cache {
+		keys = append(keys, k)
+	}
+	sort.Slice(keys, func(i, j int) bool { return keys[i].String() < keys[j].String() })
+	return keys
+}
+
+// VerifC08HasLogger tells whether the logger of the item is set.
+func (blobCache *BlobCache) VerifC08HasLogger() bool {
+	return blobCache.l != nil
+}
+
+// VerifC08PreviousTick returns the branch-local previousTick.
+func (ticks *TicksSinceStart) VerifC08PreviousTick() int {
+	return ticks.previousTick
+}
+
+// VerifC08Tick0 returns the shared start of tick 0 (ok = false before Initialize).
+func (ticks *TicksSinceStart) VerifC08Tick0() (t time.Time, ok bool) {
+	if ticks.tick0 == nil {
+		return time.Time{}, false
+	}
+	return *ticks.tick0, true
+}
+
+// VerifC08Commits returns a copy of the shared tick -> hashes registry.
+func (ticks *TicksSinceStart) VerifC08Commits() map[int][]plumbing.Hash {
+	r := map[int][]plumbing.Hash{}
+	for k, v := range ticks.commits {
+		r[k] = append([]plumbing.Hash{}, v...)
+	}
+	return r
+}
